@@ -1,6 +1,7 @@
 //! copia-verif-harness: runs the implementation side of the correspondence checks.
 mod util;
 mod c17;
+mod delta;
 
 fn main() {
     let mut it = std::env::args().skip(1);
@@ -9,6 +10,9 @@ fn main() {
     std::panic::set_hook(Box::new(|_| {}));
     let code = match cmd.as_str() {
         "c17" => c17::main(args),
+        "c01" => delta::main_pairs(args, "c01"),
+        "c16" => delta::main_pairs(args, "c16"),
+        "c05" => delta::main_c05(args),
         _ => {
             eprintln!("unknown command {cmd}");
             2
